@@ -230,6 +230,97 @@ def hypotheses_suite(res, cases, per=250):
         res.broken.append(dict(kind="proof", name="C06_strategies_agree", detail="model strategies differ under the hypotheses"))
 
 
+def fn_strategy_case(i_seed):
+    """parsed functions (their keyword arguments go through the same two lookup strategies, with results keyed by parameter
+    name): aliases, alias_from, defaults, dependencies, no_input, case-insensitive parameters; the same call under
+    data_first_search True and False"""
+    import utype
+    from utype.utils import exceptions as exc
+    warnings.simplefilter("ignore")
+    rng = random.Random(i_seed)
+    t = dyn.fresh("Fs")
+    params = ["card", "address", "note"][:rng.randint(2, 3)]
+    specs = {}
+    for pn in params:
+        kw = ["default=%s" % rng.choice(["''", "'d'"])] if rng.random() < 0.7 else ["required=False"] if rng.random() < 0.5 else []
+        alias = pn + "_in" if rng.random() < 0.4 else None
+        af = [pn + "2"] if rng.random() < 0.3 else []
+        if alias: kw.append("alias=%r" % alias)
+        if af: kw.append("alias_from=%r" % af)
+        if rng.random() < 0.15: kw.append("case_insensitive=True")
+        if rng.random() < 0.1: kw.append("no_input=True")
+        specs[pn] = dict(kw=kw, alias=alias, af=af)
+    for pn in params:
+        if rng.random() < 0.4:
+            other = rng.choice([x for x in params if x != pn])
+            dep = rng.choice([other] + ([specs[other]["alias"]] if specs[other]["alias"] else []))
+            specs[pn]["kw"].append("dependencies=[%r]" % dep)
+    names = []
+    extra = rng.choice(["", "", ", on_error='exclude'"])
+    for dfs in (True, False):
+        nm = "%s%d" % (t, int(dfs))
+        sig = ", ".join("%s: str = Param(%s)" % (pn, ", ".join(specs[pn]["kw"])) if specs[pn]["kw"] else "%s: str" % pn for pn in params)
+        src = "@utype.parse(options=Options(data_first_search=%r%s))\ndef %s(*, %s):\n    return (%s)\n" % (
+            dfs, rng.choice(["", ", addition=False", ", ignore_required=True"]) if dfs else "", nm, sig, ", ".join(params) + ",")
+        names.append((nm, src))
+    # the same option set for both (chosen once)
+    opt = rng.choice(["", ", addition=False", ", ignore_required=True", ", case_insensitive=True"])
+    srcs = []
+    for dfs in (True, False):
+        nm = "%s%d" % (t, int(dfs))
+        sig = ", ".join("%s: str = Param(%s)" % (pn, ", ".join(specs[pn]["kw"])) if specs[pn]["kw"] else "%s: str" % pn for pn in params)
+        src = "@utype.parse(options=Options(data_first_search=%r%s))\ndef %s(*, %s):\n    return (%s)\n" % (dfs, opt, nm, sig, ", ".join(params) + ",")
+        try:
+            dyn.declare(src)
+        except Exception:
+            return None
+        srcs.append((nm, src))
+    kwargs = {}
+    for pn in params:
+        if rng.random() < 0.7:
+            keys = [pn] + ([specs[pn]["alias"]] if specs[pn]["alias"] else []) + specs[pn]["af"]
+            k = rng.choice(keys)
+            if rng.random() < 0.15:
+                k = k.upper()
+            kwargs[k] = rng.choice(["v", "w", 5])
+            if rng.random() < 0.15 and len(keys) > 1:
+                kwargs[rng.choice([x for x in keys if x != k])] = rng.choice(["v", "z"])
+    if rng.random() < 0.15:
+        kwargs["zz"] = "extra"
+    outs = []
+    for nm, src in srcs:
+        try:
+            outs.append(("ok", dyn.get(nm)(**kwargs)))
+        except exc.ParseError as e:
+            outs.append(("parse", type(e).__name__))
+        except TypeError as e:
+            outs.append(("typeerror", str(e).replace(nm, "f")[:80]))
+        except Exception as e:
+            outs.append(("other", type(e).__name__))
+    # same rule as for data classes: equal values when both succeed, otherwise a failure of the same kind (a ParseError in
+    # both; which of several applicable errors is met first is not compared)
+    if outs[0][0] != outs[1][0] or (outs[0][0] == "ok" and repr(outs[0]) != repr(outs[1])):
+        return "%s\ncall(**%r): data-first gives %r, field-first %r" % (srcs[0][1].replace(srcs[0][0], "f"), kwargs, outs[0], outs[1])
+    return ("ok", outs[0][0])
+
+
+def fn_strategy_suite(res, tier, seed):
+    n = 2500 if tier == "quick" else 40000
+    outs = core.pool_map(fn_strategy_case, [seed * 1000199 + i for i in range(n)])
+    bad = [o for o in outs if isinstance(o, str)]
+    agg = {}
+    for o in outs:
+        if isinstance(o, tuple):
+            agg[o[1]] = agg.get(o[1], 0) + 1
+    res.add_suite("function-strategies", n, n, ["seeded: keyword-only str parameters with alias / alias_from / default / dependencies / no_input / case_insensitive"],
+                  "parsed functions declared twice, with data_first_search True and False (and one shared extra option), called with the "
+                  "same keywords (names, aliases, alternative names, other letter case, two names of one parameter, an unknown "
+                  "keyword): same result or same error", dict(failures=len(bad), outcomes=agg))
+    for o in bad[:3]:
+        if findings.matches_any(PID, dict(kind="fn-strategy", text=o)) is None:
+            res.violations.append(dict(case=repr(dict(kind="fn-strategy")), observed=o, what=o))
+
+
 def main(tier, seed):
     warnings.simplefilter("ignore")
     res = core.Result(PID, tier, seed)
@@ -270,6 +361,7 @@ def main(tier, seed):
     for c, o in bad[:3]:
         res.violations.append(dict(case=repr(dict(src=c["src"], okw=c["okw"], data=c["data"])), observed=o,
                                    what="the two lookup strategies disagree: " + o))
+    fn_strategy_suite(res, tier, seed)
     return core.finish(res, "make -C coq Props/C06.vo && coqc (Print Assumptions audit)", "see suites", search=None,
                        level_note="C06_strategies_agree is about data_first_parse / field_first_parse of Model/Parse.v (tied by the "
                                   "fields-both-strategies suite) for declarations satisfying wf_cdecl and inputs whose repeated values are "
